@@ -146,6 +146,14 @@ def oracle_model(getter, rng, tier_quick, notes):
     man = np.array([np.mean((s[:, 0] <= p[0]) & (s[:, 1] <= p[1])) for p in pts])
     if not np.array_equal(ec, man):
         return ({"clause": "empirical-cdf", "getter": getter}, "empirical_cdf differs from the manual count")
+    # ... for samples of any length (also long ones whose length is no round number)
+    for nbig in (100000, 150001, 250000):
+        sb = tm.draw_sample(nbig, random_state=5)
+        ecb = np.asarray(tm.empirical_cdf(pts, sample=sb), dtype=float)
+        manb = np.array([np.mean((sb[:, 0] <= q[0]) & (sb[:, 1] <= q[1])) for q in pts])
+        if not np.allclose(ecb, manb, rtol=0, atol=1e-12):
+            return ({"clause": "empirical-cdf", "getter": getter, "n": nbig},
+                    "empirical_cdf(x, sample of %d rows) = %r but the fraction of sample rows with all coordinates <= x is %r" % (nbig, ecb.tolist(), manb.tolist()))
     # the density integrates, over a box, to the fraction of the model's own samples in that box (DKW 1e-12)
     if not tier_quick:
         box = (0.05, 12.0, 1.0, 25.0)   # hs_lo, hs_hi, tz_lo, tz_hi
